@@ -91,3 +91,48 @@ def strip_mapping(spec, keep=("rank-order",)):
 
 def spec_key(spec):
     return json.dumps(spec, sort_keys=True)
+
+
+def _plain(x):
+    if isinstance(x, dict):
+        return {str(k): _plain(v) for k, v in x.items()}
+    if isinstance(x, (list, tuple)):
+        return [_plain(v) for v in x]
+    if x is None or isinstance(x, (bool, int, float)):
+        return x
+    return str(x)
+
+
+def split_sections(text):
+    """top-level YAML sections of a specification file as raw text"""
+    import re
+    secs, cur = {}, None
+    for line in text.split("\n"):
+        m = re.match(r"^([A-Za-z_-]+):\s*(#.*)?$", line)
+        if m and not line.startswith(" "):
+            cur = m.group(1)
+            secs[cur] = line + "\n"
+        elif cur is not None:
+            secs[cur] += line + "\n"
+    return secs
+
+
+def from_text(text, name, extents, sizes=None, tags=None):
+    """spec dictionary from a full specification text (einsum/mapping parsed with ruamel, the
+    architecture/bindings/format sections kept verbatim)"""
+    from ruamel.yaml import YAML
+    y = YAML(typ="safe").load(text)
+    secs = split_sections(text)
+    m = _plain(y.get("mapping") or {})
+    spec = {"name": name, "decl": _plain(y["einsum"]["declaration"]), "exprs": _plain(y["einsum"]["expressions"]),
+            "mapping": {k: v for k, v in m.items() if v is not None}, "extents": dict(extents),
+            "sizes": dict(sizes or {}), "tags": dict(tags or {})}
+    for k_yaml, k_spec in (("architecture", "arch"), ("bindings", "bindings"), ("format", "format")):
+        if k_yaml in secs:
+            spec[k_spec] = secs[k_yaml]
+    return spec
+
+
+def from_file(path, name, extents, sizes=None, tags=None):
+    with open(path) as f:
+        return from_text(f.read(), name, extents, sizes, tags)
